@@ -55,16 +55,16 @@ ProjectionLaws(g) ==
   First(<<
     Law(\A a \in DOMAIN g.meta : g.meta[a].keyOk, "Store", "record-address-differs-from-key"),
     Law(g.other = 0, "Store", "unknown-keys"),
-    Law(g.rawTok = g.qTok, "Views", "grpc-contracts-vs-store"),
-    Law(g.rawTok = g.kTok, "Views", "keeper-iteration-vs-store"),
-    Law(g.idxQ = g.idx, "Views", "grpc-by-denom-vs-index"),
-    Law(g.wlQ = g.wl /\ g.verQ = g.ver, "Views", "grpc-params-vs-store"),
     Law(KeysCoherent(L), "Inv", "unknown-type"),
     Law(OneErc20PerDenom(L), "Inv", "OneErc20PerDenom"),
     Law(IdxMatchesMeta(L), "Inv", "IdxMatchesMeta"),
     Law(FixedAddrTypes(L), "Inv", "type-vs-address-class"),
     Law(DynBelowNonce(L), "Inv", "UniqueAddr-next-dynamic-address-not-free"),
-    Law(L.nonce = 0 \/ g.modAcc, "Inv", "module-account-missing")
+    Law(L.nonce = 0 \/ g.modAcc, "Inv", "module-account-missing"),
+    Law(g.rawTok = g.qTok, "Views", "grpc-contracts-vs-store"),
+    Law(g.rawTok = g.kTok, "Views", "keeper-iteration-vs-store"),
+    Law(g.idxQ = g.idx, "Views", "grpc-by-denom-vs-index"),
+    Law(g.wlQ = g.wl /\ g.verQ = g.ver, "Views", "grpc-params-vs-store")
   >>)
 
 (* recorded registry vs the model's *)
